@@ -533,7 +533,8 @@ fn hostile_files(seed: u64, idx: u64, work: &Path, rep: &mut Report) {
     // (file kind, field, bytes)
     let mut files: Vec<(&'static str, String, Vec<u8>)> = Vec::new();
     // --- signature corruptions: layout block_size:u64 | file_size:u64 | nblocks:u64 | 40 B per block
-    for v in [0u64, 1, 3, 1000, 1 << 31, u64::MAX, 256, 131_072] {
+    // (the signature's block size is 8 bytes on disk: values that are valid in their low 32 bits only)
+    for v in [0u64, 1, 3, 1000, 1 << 31, u64::MAX, 256, 131_072, (1 << 32) + 2048, (1 << 32) + 512, (3 << 32) + 65_536, (1 << 63) + 4096, (1 << 32) + u64::from(bs as u32), 1 << 32, 65_537, (1 << 16) + 512] {
         let mut b = sigb.clone();
         put_u64(&mut b, 0, v);
         files.push(("sig", format!("block_size={v}"), b));
